@@ -149,4 +149,34 @@ def run(ck, P):
     ck.ob("C19.4-STOPPED-DELIVERED", lp.site("emit;flush;clear"), ok, "order emission(%d) < flush(%s) < poll_clear(%s)" % (em.line, [e.line for e in fl], [e.line for e in pc]),
           witness=[("del_event", lp.unit, lp.name, e.block.id, e.idx) for e in fl])
 
-    ck.not_decided += ["which subscribers receive the notification (C02)", "tick period"]
+    # ------------------------------------------------------------------ 5. tick period is (re)armed whenever it is (re)configured
+    ck.rule("C19.5-TICK-REARM", "R-PAIR: the tick period is stored only by m_ctx_set_tick; every path that stores a non-zero period first removes the "
+            "previous tick source (deregister_ctx_src) and then registers a fresh one (register_ctx_src with &c->tick, process_tick) — the timer "
+            "descriptor is armed from the period at registration time only, so an in-place update would keep ticking at the old period", floor=1)
+    st_ = P.fn("m_ctx_set_tick", CTXC)
+    ck.analysed(st_)
+    ws = list(P.writes_to_field("m_src_tmr_t", "ns"))
+    tick_ws = [w for w in ws if "tick" in S(w.lhs)]
+    okw = bool(tick_ws) and all(w.fn is st_ for w in tick_ws)
+    bad = None
+    n = 0
+    for path in st_.paths():
+        evs = list(rules.path_events(st_, path))
+        stores = [e for e in evs if e in tick_ws]
+        if not stores:
+            continue
+        n += 1
+        dr = [e for e in evs if e.kind == "call" and e.callee == "deregister_ctx_src"]
+        rg = [e for e in evs if e.kind == "call" and e.callee == "register_ctx_src" and S(e.args[3]) == "&c->tick" and S(e.args[2]) == "process_tick"]
+        if not dr or not rg or not (evs.index(dr[0]) < evs.index(stores[0]) < evs.index(rg[0])):
+            bad = path
+    ck.ob("C19.5-TICK-REARM", st_.site("period store re-arms the source"), okw and bad is None and n > 0,
+          "%d path(s) storing a period: old source removed before, fresh source registered after" % n if okw and bad is None else
+          "a new tick period is stored without re-registering the tick source: the running timer keeps its old period",
+          path=rules.fmt_path(st_, bad) if bad else None)
+    # src-level period of other sources must not be edited in place either
+    inplace = [w for w in ws if w.fn.unit.startswith("Lib/core/") and "tmr_src" in S(w.lhs)]
+    ck.ob("C19.5-TICK-REARM", "Lib/core:ev_src_t.tmr_src.its.ns writers", not inplace, "nobody edits a registered timer's period in place: %s" % [(w.fn.name, w.line) for w in inplace],
+          nontrivial=False)
+
+    ck.not_decided += ["which subscribers receive the notification (C02)", "tick period as wall-clock behaviour (only the re-arming shape is decided)"]
